@@ -102,9 +102,10 @@ type Sched struct {
 	keepDebug bool
 	digest    [32]byte
 
-	preempts int
-	maxSteps int
-	noChoice bool // prelude: decisions are not taken from the choice list
+	preempts  int
+	maxSteps  int
+	noChoice  bool // prelude: decisions are not taken from the choice list
+	taskPanic string
 }
 
 func newSched(choices []int, siteOff map[string]bool, maxSteps int) *Sched {
@@ -165,6 +166,14 @@ func (s *Sched) spawn(base context.Context, gen *Generation, name string, fn fun
 	go func() {
 		registerGoroutine(t)
 		defer func() {
+			// a panic that escapes a task must not take the whole worker process down
+			if e := recover(); e != nil && (t.Gen == nil || !t.Gen.dead.Load()) {
+				s.mu.Lock()
+				if s.taskPanic == "" {
+					s.taskPanic = fmt.Sprintf("task %s panicked: %v", t.Name, e)
+				}
+				s.mu.Unlock()
+			}
 			unregisterGoroutine()
 			s.mu.Lock()
 			t.finished = true
